@@ -10,7 +10,7 @@ LEVEL_NOTE = ("Trusted base: Go compiler/runtime; the vx source transformer (str
 CHECKS = {
  "C01": ("fault_enumeration", "exhaustive fate-vector enumeration over two real KCP cores with a prefix oracle after every read",
          "Every assignment of {deliver, drop, duplicate, reorder, delay past RTO} to the first K datagrams (both directions) of a transfer between two real KCP state machines and between a real client/listener session pair (cipher x FEC x mode covering grid; plus every schedule within the deviation bound on the loss-free run), "
-         "for a grid of driving mode x stream/message x window x MTU x nodelay x write pattern, with the bytes/messages read compared against the bytes/messages accepted after every Recv; payloads that look like segments of the same conversation under a sender that overshoots; two concurrent writers on one session (whole records, deviation bound 1); vector writes.",
+         "for a grid of driving mode x stream/message x window x MTU x nodelay x write pattern, with the bytes/messages read compared against the bytes/messages accepted after every Recv; payloads that look like segments of the same conversation under a sender that overshoots; two concurrent writers on one session (whole records, deviation bound 1); vector writes; the MTU raised while a backlog is queued followed by every sequence of four writes over sizes relative to both segment sizes.",
          "DESIGN.md 5 C01"),
  "C02": ("fault_enumeration", "exhaustive fate-vector and outage enumeration with a drained-before-virtual-horizon oracle",
          "The same fate-vector space continued on a fair network until drained or a virtual horizon, plus total outages starting at every emission instant of the loss-free run for four outage lengths; "
@@ -31,7 +31,7 @@ CHECKS = {
          "DESIGN.md 5 C12"),
  "C17": ("model_checking", "stateless DFS over thread interleavings of the real TimedSched on a controlled scheduler, iterated preemption bound, happens-before state caching",
          "All interleavings (preemption bound iterated 0..2/3; switches at blocking points, select ties free; early timer firing as a deviation) of 1-3 submitters with the real prepend/sched goroutines, "
-         "deadline alphabets incl. ties with timer expiry and never-deadlines beyond the range of UnixNano, task functions that take time (busy worker), every arrival order of six pending tasks, both timer-channel semantics; oracle: each task exactly once, never early, run by the first quiescent state after its deadline, workers exit on Close.",
+         "deadline alphabets incl. ties with timer expiry and never-deadlines beyond the range of UnixNano, task functions that take time (busy worker), every arrival order of six pending tasks, 15..4097 pending tasks (every 2^k-1, 2^k, 2^k+1) in four shapes on the default schedule, both timer-channel semantics; oracle: each task exactly once, never early, run by the first quiescent state after its deadline, workers exit on Close.",
          "DESIGN.md 5 C17"),
  "C18": ("fault_enumeration", "exhaustive enumeration of a clean-path configuration grid; explicit-state BFS over acknowledgement timestamps and mode switches for the RTO bound",
          "Every configuration of a grid (mode x nodelay x one-way delay with 2D+interval < min RTO x windows x stream/message x length, bidirectional) is executed without faults on two real cores; incl. two independent flush clocks, trained estimator plus outlier, bursts larger than the receive window against a receiver that inputs a batch before its reader runs, and a covering subset re-run near the 2^32/2^31 wraps of sn and clock; every data sn must appear on the wire exactly once; "
@@ -48,7 +48,7 @@ CHECKS = {
  "C09": ("exploration", "independent README-derived decoder applied to every datagram of exhaustively enumerated session executions",
          "Every datagram either end of a real session pair hands to the virtual PacketConn, for every fate vector over the first K datagrams and every cipher x FEC x mode configuration, is decoded by a decoder that imports nothing from kcp: "
          "layout, CRC/tag, FEC type/position/order, Reed-Solomon parity of complete groups, nonce and datagram uniqueness, and the stream reassembled from the wire alone equals what was written; out-of-band packets and the FEC-protection rule (a continuous group is followed by its parity) included; encoder at its wrap value; "
-         "2^20 sequential draws of the real entropy source are distinct, and so are concurrent draws under every interleaving (with scheduling points after every Unlock).",
+         "2^20 sequential draws of the real entropy source are distinct, and so are concurrent draws under every interleaving (with scheduling points after every Unlock); two sessions accepted by one listener sealing with its one cipher object at the same time (every block operation a scheduling point, every single deviation, no state cache).",
          "DESIGN.md 5 C09"),
  "C10": ("exploration", "exhaustive enumeration of an MTU boundary alphabet x history positions x overhead classes on the real session and core",
          "len of every buffer at WriteTo <= session MTU over MTU x cipher x FEC classes and all fate vectors; SetMtu(v) for a boundary alphabet at four positions of a traffic history (incl. concurrently, with loss) on the session, "
@@ -79,7 +79,7 @@ CHECKS = {
          "DESIGN.md 5 C07"),
  "C14": ("exploration", "ThreadSanitizer happens-before race check on every explored schedule of the real code under the controlled scheduler (HB-race mode)",
          "All 27 UDPSession and 9 Listener methods, each called twice on its own thread on dialled and accepted session against live traffic and a second client, every cipher (none, AES-CFB, AEAD, sm4, twofish, blowfish, 3des, cast5, tea, xtea, salsa20, xor, none-with-CRC) x FEC {off,on} x Close variants, Read also with buffers smaller than a chunk; "
-         "the scheduler's hand-offs are hidden from TSan and the shims announce the program's own HB edges, so a race between any two calls is reported on any schedule where both accesses occur; default schedule + single deviations. The entropy generators (state written by assembly, invisible to TSan) are decided by interleaving exploration with scheduling points after every Unlock.",
+         "the scheduler's hand-offs are hidden from TSan and the shims announce the program's own HB edges, so a race between any two calls is reported on any schedule where both accesses occur; default schedule + single deviations. The entropy generators (state written by assembly, invisible to TSan) are decided by interleaving exploration with scheduling points after every Unlock. Small dedicated units complete deviation bound 1 with scheduling points after every Unlock: readers with small buffers, and SendOOB against Close with the peer drawing from the same pool (pool ownership tracking as a second race oracle).",
          "DESIGN.md 5 C14"),
  "C16": ("fault_enumeration", "exhaustive enumeration of sender/receiver ratio pairs x starting residues; fate vectors for stability",
          "Every (d,p) x (d',p') with d,d'<=4, p,p'<=3 and boundary pairs up to d+p=255, from every starting residue and three bases: the real decoder fed the real encoder's uninterrupted output must adopt the ratio within 258+2(d+p) packets "
@@ -93,7 +93,7 @@ CHECKS = {
          "DESIGN.md 5 C11"),
  "C19": ("fault_enumeration", "exhaustive payload-length enumeration and fate-vector x schedule exploration of OOB interleaved with stream traffic on real session pairs",
          "Every OOB payload length 0..GetOOBMaxSize()+1 on a clean path for three cipher classes; boundary lengths in both directions under every fate vector and every single scheduling deviation with the independent wire decoder "
-         "(OOB consumes no FEC id, parity covers data only) and the stream oracle; refusal without FEC and above the maximum; two clients on one listener; FEC at the peer only (out-of-band calls refused before, while and after FEC packets arrive); an out-of-band message as the last request of a burst (the data before it is not delayed, Close still sends the tail); a new conversation on the same address while the old one's OOB is in flight, on the dialled and on the listener side.",
+         "(OOB consumes no FEC id, parity covers data only) and the stream oracle; refusal without FEC and above the maximum; two clients on one listener; FEC at the peer only (out-of-band calls refused before, while and after FEC packets arrive; out-of-band messages sent to that end go nowhere and disturb nothing); an out-of-band message as the last request of a burst (the data before it is not delayed, Close still sends the tail); a new conversation on the same address while the old one's OOB is in flight, on the dialled and on the listener side.",
          "DESIGN.md 5 C19"),
 }
 NOT_YET = {}
